@@ -292,7 +292,7 @@ Proof.
   unfold to_offline. destruct (k_wsem c);
     try (apply trip_bind_keep; [apply tell_keep|]; intros _; apply trip_ret;
          split; [rewrite cp_break_pending; reflexivity|reflexivity]).
-  apply trip_ret. auto.
+  apply trip_bind_keep; [apply tell_keep|]. intros _. apply trip_ret. split; reflexivity.
 Qed.
 
 (* to_offline, then return *)
